@@ -304,6 +304,7 @@ package ech
 //@   ensures[S:echunique] err == nil ==> echUnique(c) && (c.echExt != nil) == (echIdx(c) < len(c.Extensions))
 //@   ensures[F:errclass] err != nil ==> alertCode(err) == 50 || alertCode(err) == 47
 //@   ensures[F:echtype] err == nil && c.echExt != nil ==> c.echExt.Type <= 1
+//@   at "for _, ext := range c.Extensions" assert[F:derived-fields-reset] len(c.ALPNProtos) == 0 && c.ServerName == "" && !c.tls13 && !c.hasECHOuterExtensions && c.echExt == nil
 //@   loop 1 "range c.Extensions"
 //@     invariant[echtype] c.echExt != nil ==> c.echExt.Type <= 1
 //@     invariant[no-ech-yet] c.echExt == nil ==> forall(i, 0, ri1, c.Extensions[i].Type != 0xfe0d)
@@ -414,6 +415,8 @@ package ech
 //@   ensures[F:inner-rules] inner != nil ==> inner.tls13 && h.tls13 && h.echExt != nil && len(c.keys) > 0
 //@   ensures[F:public-name] inner != nil ==> exists(i, 0, len(c.keys), cfgValid(c.keys[i].Config) && int(c.keys[i].Config[4]) == int(h.echExt.ConfigID) &&
 //@       bytesEq(window(c.keys[i].Config, cfgPnOff(c.keys[i].Config), cfgPnLen(c.keys[i].Config)), h.ServerName))
+//@   capture "hpke.SetupReceipient(" setupErr = 1
+//@   check[F:setup-failure-never-aborts] len(cfg.PublicName) >= 0 && err != nil ==> setupErr == nil || err != setupErr
 //@   check[L:spliced-final] inner != nil ==> inner.Extensions == newExt
 //@   ensures[F:reported-from-reconstructed] inner != nil ==> derivedOK(inner)
 //@   check[L:session-id] inner != nil ==> inner.LegacySessionID == h.LegacySessionID
